@@ -98,7 +98,7 @@ def fam_faults(sess):
                           {'faults': [list(f) for f in faulted], 'trace': trace, 'status': stv},
                           cli_replay_faults(fs, m, faulted, nroots, dfs), fam)
 
-        n, complete = ex.explore(runp, on_path, time_budget=200 if quick else 1500)
+        n, complete = ex.explore(runp, on_path, time_budget=400 if quick else 1500)
         name = '%s roots=%d %s' % (fam, nroots, 'dfs' if dfs else 'bfs')
         if not complete:
             sess.inconclusive(name, 'time budget exceeded after %d paths' % n, fam)
@@ -198,7 +198,7 @@ def fam_pipe(sess):
                 if not viol.get('pipe/status'):
                     viol['pipe/status'] = True
                     sess.violated(name, 'pipe/status', 'status outside {0,1}', {}, None, fam)
-            n, complete = ex.explore(runp, on_path, time_budget=200 if quick else 900)
+            n, complete = ex.explore(runp, on_path, time_budget=400 if quick else 900)
             name = '%s %s %s' % (fam, mode, 'newline rows' if newline else 'no newlines')
             if not complete:
                 sess.inconclusive(name, 'time budget exceeded after %d paths' % n, fam)
